@@ -607,6 +607,7 @@ package ast
 // field's NAME (not merely the text of the path as written) and its type that field's type.
 //@ func (*Builder).MakePath
 //@   property C17
+//@   traced
 //@   modifies nothing
 //@   loop 0:
 //@     invariant len: len(path) == $i + 1 && (base(path) == 0 || fresh(path))
